@@ -55,7 +55,7 @@ let () =
         state := None;
         (* a SetPixelFormat message delivers the two flags as bytes: any non-zero value is true *)
         let cfv = (match ws with
-                   | ["setupmsg"; b; t] -> { !cf with be = (int_of_string b <> 0); tc = (int_of_string t <> 0) }
+                   | ["setupmsg"; b; t] -> { !cf with be = wire_flag (zi b); tc = wire_flag (zi t) }
                    | _ -> !cf) in
         (match set_translate !econ !sf cfv with
          | SetupErr _ -> print_endline "setup ok=0"
@@ -87,7 +87,8 @@ let () =
          | None -> print_endline "recmap nosetup"
          | Some (cf', st) ->
              tcm := recolour !sf (int_of_string ready <> 0) !tcm !cm;
-             Printf.printf "recmap ret=1 %s\n" (tbl_s st cf'))
+             Printf.printf "recmap ret=1 mod=%s %s\n"
+               (if recolour_marks_screen !sf (int_of_string ready <> 0) then "full" else "empty") (tbl_s st cf'))
     | "xlate" :: stride :: w :: h :: rest ->
         (match !state with
          | None -> print_endline "xlate nosetup"
